@@ -690,6 +690,16 @@ func ruleSyncArm(w *World, r *Report, pfx string) {
 				if !isLoad(Val{V: stripConv(v.V)}, "mpb.pushData", "sync") {
 					bad = "the push arm does not take over the payload's sync flag"
 				}
+			case p.hasBool(-1, true, loadOf("mpb.pushData", "sync")):
+				// `if data.sync { sync = true }`: under payload.sync the flag becomes true ...
+				if bv, ok := constBool(v.V); !(ok && bv) {
+					bad = "a push that asks for a re-sync does not set the flag"
+				}
+			case p.hasBool(-1, false, loadOf("mpb.pushData", "sync")):
+				// ... and otherwise keeps its previous value
+				if v.V != ssa.Value(syncPhi) {
+					bad = "a push clears a pending re-sync request (flag not sticky): a later sync with unchanged heap length keeps stale width matrices and a new bar blocks forever"
+				}
 			default:
 				// unconditional assignment: must be old || payload (value form)
 				bad = "the push arm overwrites the re-sync flag without consulting its previous value"
@@ -853,7 +863,7 @@ func ruleSyncArm(w *World, r *Report, pfx string) {
 	okCover := cl.ok && cl.step == 1
 	if okCover {
 		lc, isCall := cl.bound.(*ssa.Call)
-		okCover = isCall && isBuiltinCall(&lc.Call, "len") && typeName(lc.Call.Args[0].Type()) == "mpb.priorityQueue"
+		okCover = isCall && isBuiltinCall(&lc.Call, "len") && w.isWholeHeap(lc.Call.Args[0], 0)
 	}
 	nUpd := 0
 	for b := range rebuildLoop.Blocks {
@@ -992,7 +1002,14 @@ func checkGetterFinalityTable(w *World, r *Report, pfx string) {
 		return
 	}
 	n := 0
-	for _, f := range append([]*ssa.Function{fn}, fn.AnonFuncs...) {
+	fns := append([]*ssa.Function{fn}, fn.AnonFuncs...)
+	// the operation offered on the inbox, when it is not a local closure (method value of a request type)
+	for _, o := range w.offersIn(fn) {
+		if o.Closure != nil && o.Closure.Parent() != fn {
+			fns = append(fns, o.Closure)
+		}
+	}
+	for _, f := range fns {
 		for _, b := range f.Blocks {
 			for _, in := range b.Instrs {
 				if c, ok := in.(*ssa.Call); ok && c.Call.StaticCallee() == tbl {
@@ -1220,4 +1237,35 @@ func ruleInitChannel(w *World, r *Report, pfx string) {
 		return
 	}
 	r.Check(bad == "" && nP > 0 && sawSync && sawPlain, rule, "decor.(*WC).Init", w.pos(fn.Pos()), "fresh unbuffered channel exactly on the paths with the sync bit", orStr(bad, "branch missing"))
+}
+
+
+// isWholeHeap: v is the heap manager's bar list as a whole: a value of the heap's slice type, or a
+// helper's parameter to which every caller hands such a value (possibly converted to []*Bar).
+func (w *World) isWholeHeap(v ssa.Value, depth int) bool {
+	v = stripConv(v)
+	if typeName(v.Type()) == "mpb.priorityQueue" {
+		return true
+	}
+	par, ok := v.(*ssa.Parameter)
+	if !ok || depth > 1 {
+		return false
+	}
+	h := par.Parent()
+	idx := -1
+	for i, q := range h.Params {
+		if q == par {
+			idx = i
+		}
+	}
+	sites := w.callers[h]
+	if len(sites) == 0 || idx < 0 {
+		return false
+	}
+	for _, site := range sites {
+		if site.Common().StaticCallee() != h || idx >= len(site.Common().Args) || !w.isWholeHeap(site.Common().Args[idx], depth+1) {
+			return false
+		}
+	}
+	return true
 }
